@@ -38,6 +38,15 @@ func (m *vertexMaker) make(i int) interface{} {
 		return fmt.Sprintf("v%d", i)
 	case 2:
 		return sv{i, i * 7}
+	case 4:
+		// vertices that PRINT alike in pairs: int 2k and string "2k"
+		if i%2 == 0 {
+			return i
+		}
+		return fmt.Sprint(i - 1)
+	case 5:
+		// hashable vertices with distinct hash codes and one display name per pair
+		return &nv{K: i}
 	default:
 		m.gen++
 		return &hv{K: i, Gen: m.gen}
@@ -53,10 +62,24 @@ func (m *vertexMaker) key(i int) interface{} {
 		return fmt.Sprintf("v%d", i)
 	case 2:
 		return sv{i, i * 7}
+	case 4:
+		if i%2 == 0 {
+			return i
+		}
+		return fmt.Sprint(i - 1)
 	default:
 		return i
 	}
 }
+
+// nv: hash code K, display name shared by K and K^1.
+type nv struct{ K int }
+
+func (n *nv) Hashcode() interface{} { return n.K }
+func (n *nv) String() string        { return fmt.Sprintf("nv%d", n.K/2) }
+
+// nVertexKinds is the number of vertex flavours vertexMaker knows.
+const nVertexKinds = 6
 
 const inf = 1 << 60
 
@@ -336,7 +359,7 @@ func runC18(c *CaseCtx) (res CaseResult) {
 		}
 		res.Key = fmt.Sprintf("exhaustive %d-%d", lo, hi)
 		res.NonTrivial = true
-		vm := &vertexMaker{kind: c.Idx % 4}
+		vm := &vertexMaker{kind: c.Idx % nVertexKinds}
 		for i := lo; i < hi; i++ {
 			ref := smallGraph(i)
 			g, vs := buildGraph(ref, vm, r)
@@ -392,7 +415,7 @@ func runC18(c *CaseCtx) (res CaseResult) {
 		}
 		res.obs("huge_weight_graphs", 1)
 	}
-	vm := &vertexMaker{kind: r.Intn(4)}
+	vm := &vertexMaker{kind: r.Intn(nVertexKinds)}
 	res.Key = ref.String()
 	ne := 0
 	for i := range ref.w {
@@ -741,7 +764,7 @@ func runC19(c *CaseCtx) (res CaseResult) {
 	if c.Idx%10 == 9 {
 		return runLiveGraph(c, r, "C19")
 	}
-	vm := &vertexMaker{kind: r.Intn(4)}
+	vm := &vertexMaker{kind: r.Intn(nVertexKinds)}
 	nv := 2 + r.Intn(5)
 	nops := 1 + r.Intn(60)
 	// churn (1 case in 24): a large graph is built, views are taken, and
@@ -1267,7 +1290,7 @@ func runC20(c *CaseCtx) (res CaseResult) {
 		}
 		res.Key = fmt.Sprintf("exhaustive %d-%d", lo, hi)
 		res.NonTrivial = true
-		vm := &vertexMaker{kind: c.Idx % 4}
+		vm := &vertexMaker{kind: c.Idx % nVertexKinds}
 		for i := lo; i < hi; i++ {
 			ref := smallGraph(i)
 			checkTraversals(ref, vm, r, &res, func() interface{} { return map[string]interface{}{"graph": ref.String(), "exhaustive": true} })
@@ -1279,7 +1302,7 @@ func runC20(c *CaseCtx) (res CaseResult) {
 		return runLiveGraph(c, r, "C20")
 	}
 	ref := randomRef(r, 10)
-	vm := &vertexMaker{kind: r.Intn(4)}
+	vm := &vertexMaker{kind: r.Intn(nVertexKinds)}
 	res.Key = ref.String()
 	ne := 0
 	for i := range ref.w {
@@ -1318,7 +1341,7 @@ func runC20(c *CaseCtx) (res CaseResult) {
 // view).
 func runC18History(c *CaseCtx, r *rand.Rand) (res CaseResult) {
 	ref := randomRef(r, 7)
-	vm := &vertexMaker{kind: r.Intn(4)}
+	vm := &vertexMaker{kind: r.Intn(nVertexKinds)}
 	g, vs := buildGraph(ref, vm, r)
 	n := ref.n
 	var trace []string
@@ -1477,7 +1500,7 @@ func runC18Long(c *CaseCtx, r *rand.Rand) (res CaseResult) {
 		}
 		return dist
 	}
-	vm := &vertexMaker{kind: r.Intn(4)}
+	vm := &vertexMaker{kind: r.Intn(nVertexKinds)}
 	g, vs := buildGraph(ref, vm, r)
 	d := make([][]int, n)
 	maxEdges := 0
